@@ -513,6 +513,18 @@ pub fn exec(c: &RenderCase, st: &mut Stats) -> Vec<Viol> {
             }
             continue;
         }
+        // every issue of a validation report over string input is shown with its source line
+        if info.kind.starts_with("Validat") && has_snippet && c.entry.is_string() && c.radius > 0 && *name != "snippet_off" {
+            for l in t.split('\n') {
+                if l.starts_with("validation error") && l.contains(" at line ") {
+                    out.push(mk(
+                        "validation-issue-without-snippet",
+                        format!("{name}: an issue is reported as a bare line although the report holds source windows: {:?}", trunc(l)),
+                    ));
+                    break;
+                }
+            }
+        }
         let blocks = parse_blocks(t);
         // (string input only: the reader's recent-bytes window may legitimately have moved past the line)
         if blocks.is_empty() && has_snippet && *name != "snippet_off" && *name != "debug" && c.entry.is_string() && c.radius > 0 {
